@@ -28,6 +28,7 @@ import (
 	"runtime"
 	"runtime/pprof"
 	"strconv"
+	"strings"
 	"sync"
 	"sync/atomic"
 	"time"
@@ -120,8 +121,15 @@ func checkReads(c cont, want []int, wantN int, hows []int) *mismatch {
 	for _, how := range hows {
 		for i, w := range want {
 			g := c.read(i, how)
-			if g != float64(w) {
-				return &mismatch{what: "read", exp: vh.M{"pos": i, "value": w, "content": want}, got: vh.M{"value": g, "accessor": how % 9}}
+			wv, wd := w, false
+			if w >= 5 { // value + 10: the element carries a non-zero derivative
+				wv, wd = w-tag, true
+			}
+			if g != float64(wv) {
+				return &mismatch{what: "read", exp: vh.M{"pos": i, "value": wv, "content": want}, got: vh.M{"value": g, "accessor": how % 9}}
+			}
+			if d := c.deriv(i); d != wd {
+				return &mismatch{what: "derivative", exp: vh.M{"pos": i, "has_derivative": wd, "content": want}, got: vh.M{"has_derivative": d}}
 			}
 		}
 	}
@@ -198,11 +206,14 @@ func runCase(c *tcase, in inst, other inst, sh shape, caseNo int, operand string
 	opFlavour := caseNo % 3 // vector 2 created by "new2": same type / another sparse element type / dense
 	for i := range c.H {
 		e := &c.H[i]
-		if sh.kind != "matrix" && (e.A == "vwalk" || e.A == "vwrite") {
+		if sh.kind != "matrix" && (e.A == "vwalk" || e.A == "vwrite" || strings.HasPrefix(e.A, "w_")) {
 			return nil, true
 		}
 		if sh.kind == "matrix" && (e.A == "new2" || e.A == "appendo" || e.O == 2) {
 			return nil, true
+		}
+		if e.A == "setvar" && in.Class != "real" {
+			return nil, true // derivatives exist for the Real element types only
 		}
 		if opFlavour == 2 && e.O == 2 && e.A != "new2" && e.A != "write" && e.A != "reset" && e.A != "swap" &&
 			e.A != "reverse" && e.A != "permute" && e.A != "sort" {
@@ -300,6 +311,17 @@ func runCase(c *tcase, in inst, other inst, sh shape, caseNo int, operand string
 					}
 					hasRes = true
 				}
+			case "setvar":
+				err = o.setVar(e.I, how+si)
+			case "w_reset", "w_identity", "w_set", "w_mdotm", "w_muls", "w_addm", "w_map":
+				var b []int
+				if e.A == "w_set" || e.A == "w_mdotm" || e.A == "w_addm" {
+					b = e.P
+					if b == nil {
+						b = []int{}
+					}
+				}
+				err = o.viewBulk(e.W, e.A, b, e.X, how+si)
 			case "vwrite":
 				err = o.viewWrite(e.W, e.I, e.K, e.X, how+si)
 			case "promote":
@@ -531,6 +553,12 @@ func replay(args []string) {
 	if len(types) == 0 {
 		vh.Fatal("no sparse vector types found")
 	}
+	reals := []int{}
+	for ti, t := range types {
+		if t.Class == "real" {
+			reals = append(reals, ti)
+		}
+	}
 	out := vh.NewOut(args[1])
 	defer out.Close()
 	type job struct {
@@ -560,6 +588,10 @@ func replay(args []string) {
 				}
 				lruns, lskip, lmis := 0, 0, 0
 				lk := map[string]int{}
+				hasSetVar := false
+				for i := range c.H {
+					hasSetVar = hasSetVar || c.H[i].A == "setvar"
+				}
 				shapes := shapesFor(c.N0)
 				if c.N0 == 0 { // degenerate matrices: zero rows and/or zero columns
 					shapes = []shape{{"vector", 0, 0}, {"matrix", 0, 0}, {"matrix", 0, 2}, {"matrix", 2, 0}, {"matrix", 0, 1}, {"matrix", 3, 0}}
@@ -570,7 +602,12 @@ func replay(args []string) {
 				for _, sh := range shapes {
 					for ti, in := range types {
 						// vectors: every element type on every case; matrices: the element type rotates with the case
-						if sh.kind == "matrix" && (!allMat && ti != (jb.no+sh.rows)%len(types)) {
+						// (histories with derivatives: among the Real types)
+						pick := (jb.no + sh.rows) % len(types)
+						if hasSetVar && len(reals) > 0 {
+							pick = reals[(jb.no+sh.rows)%len(reals)]
+						}
+						if sh.kind == "matrix" && (!allMat && ti != pick) {
 							continue
 						}
 						if operand == "dense" && sh.kind == "matrix" {
@@ -682,6 +719,9 @@ func observe(c cont, e *rev, how int) {
 		if !ok {
 			e.Bad = fmt.Sprintf("non-integral element at %d", i)
 			x = 0
+		}
+		if c.deriv(i) {
+			x += tag
 		}
 		e.C = append(e.C, x)
 	}
@@ -809,6 +849,47 @@ func oneOp(rng *rand.Rand, c cont, its []iter, e *rev, nmax int) (cont, bool) {
 			return 0
 		}
 		return rng.Intn(d)
+	}
+	anyDeriv := false
+	for i := 0; i < d; i++ {
+		anyDeriv = anyDeriv || c.deriv(i)
+	}
+	if anyDeriv && ((x >= 34 && x < 37) || (x >= 55 && x < 67) || x >= 97) {
+		x = 10 // no Sort / arithmetic / joint iteration while an element carries a derivative
+	}
+	if strings.Contains(c.str0(), "Real") && d > 0 && rng.Intn(12) == 0 {
+		// Real element types: give an element a non-zero derivative (value unchanged)
+		i := pos()
+		if !c.deriv(i) {
+			e.E, e.I = "setvar", i
+			c.setVar(i, rng.Intn(2))
+			return c, false
+		}
+	}
+	if mc, ok := c.(*matCont); ok && !anyDeriv && rng.Intn(10) == 0 {
+		// a whole-view operation with a (nested) slice view as receiver
+		word, vr, vc, hasT := randWord(rng, mc.rows, mc.cols)
+		if !hasT {
+			names := []string{"w_reset", "w_identity", "w_set", "w_mdotm", "w_muls", "w_addm", "w_map"}
+			nm := names[rng.Intn(len(names))]
+			if maxAbs(c) > 6 && nm == "w_addm" {
+				nm = "w_reset"
+			}
+			if nm == "w_mdotm" && (vr == 0 || vc == 0) {
+				nm = "w_set"
+			}
+			e.E, e.W, e.K = nm, word, mc.cols
+			var b []int
+			switch nm {
+			case "w_set", "w_mdotm", "w_addm":
+				b = randVec(rng, d, 1+rng.Intn(6))
+				e.P = b
+			case "w_muls":
+				e.X = rng.Intn(3) - 1
+			}
+			c.viewBulk(word, nm, b, e.X, rng.Intn(3))
+			return c, false
+		}
 	}
 	switch {
 	case x < 22: // write (one third zeros)
